@@ -49,10 +49,14 @@ def main():
         results, sens_lost = sensitivity.run(pid)
         extra = getattr(rep, "extra_cov", None) or {}
         extra["sensitivity_self_test"] = {
-            "what": "each recorded seeded change this check detects was applied to a scratch copy of /repo's current "
-                    "tree and the same static check was re-run on the copy; 'detected' = the recorded rule fired",
+            "what": "each recorded seeded change this check detects, and each recorded behaviour-preserving "
+                    "refactoring of this property's area, was applied to a scratch copy of /repo's current tree and "
+                    "the same static check was re-run on the copy; 'detected' = the recorded rule fired, 'silent' = "
+                    "no violation reported for a refactoring",
             "changes": results,
             "detected": sum(1 for r in results if r["status"] == "detected"),
+            "benign_refactorings_silent": sum(1 for r in results if r["status"] == "silent"),
+            "benign_refactorings_reported": sum(1 for r in results if r["status"] == "false-alarm"),
             "skipped": sum(1 for r in results if r["status"] == "skipped"),
             "lost": sens_lost,
         }
@@ -61,6 +65,9 @@ def main():
             if r["status"] == "lost":
                 print("SENSITIVITY-LOST property=%s seed=%s expected rule %s, reported %s"
                       % (pid, r["seed"], r["expected_rule"], r.get("reported")))
+            elif r["status"] == "false-alarm":
+                print("SPECIFICITY-LOST property=%s change=%s (behaviour-preserving refactoring) reported %s"
+                      % (pid, r["seed"], r.get("reported")))
             else:
                 print("sensitivity: %s %s%s" % (r["seed"], r["status"],
                                                 (" (" + r["why"] + ")") if r.get("why") else ""))
